@@ -53,7 +53,7 @@ func one(blocks []*cm.RootBlock, refs cm.ReferenceMap, soft cm.SoftBreakBehavior
 	for bi, b := range blocks {
 		out := string(r.AppendBlock(nil, b))
 		toks := refrender.Block(cfg, refs, b.Source, &b.Block, false)
-		if err := refrender.Match(out, toks, libF != nil); err != nil {
+		if err := refrender.Match(out, toks, refF); err != nil {
 			return fmt.Errorf("config soft=%v ignoreRaw=%v filter=%s, root block %d %q:\n library output %q\n %v", soft, ignore, spec, bi, clip(b.Source), out, err)
 		}
 		if b.Kind() == cm.LinkReferenceDefinitionKind && out != "" {
